@@ -82,6 +82,11 @@ func Run(o *hx.Opts, w *lineio.Writer) error {
 		flush(false)
 	}
 	rx := o.Rand(1313)
+	ru := o.Rand(131313)
+	for i := 0; i < o.N(1500, 12000); i++ {
+		cases = append(cases, namedIn{fmt.Sprintf("unclean-%d", i), uncleanCase(ru)})
+		flush(false)
+	}
 	for i := 0; i < o.N(1200, 8000); i++ {
 		cases = append(cases, namedIn{fmt.Sprintf("excl-%d", i), excluded(rx, i)})
 		flush(false)
